@@ -415,7 +415,12 @@ def apply_fault(out, eligible, fault, rnd, d):
         if i is None:
             return None
         toks = out[i].split(' ;')[0].split()
-        if rnd.random() < 0.5:
+        r_ = rnd.random()
+        if '--' in toks and '{' not in out[i] and r_ < 0.5:
+            # one atom too many, closed by the delimiter: 'A B C -- 1 0.3 1000' in a two-atom section
+            k = toks.index('--')
+            out[i] = ' '.join(toks[:k] + [toks[0]] + toks[k:])
+        elif r_ < 0.75:
             out[i] = toks[0]                      # too short a line
         else:
             body = [t for t in toks if t != '--']
@@ -743,6 +748,12 @@ def render_itp(mols, rnd, fault=None):
                 body = [body[0], '#ifdef FLEX', body[1], '#endif']
             out += body
             applied = fault
+        if fault == 'itp-too-few-atoms' and mi == fault_mol:
+            # sections whose atoms are taken with a slice of the line: one atom short
+            n = len(m['atoms'])
+            sec, need = [('virtual_sites4', 5), ('angle_restraints', 4), ('dihedral_restraints', 4), ('virtual_sites3', 4)][(n + mi) % 4]
+            out += ['[ %s ]' % sec, ' '.join(str(1 + (k % n)) for k in range(need - 1))]
+            applied = fault
         if fault == 'itp-undefined-atom-name' and mi == fault_mol:
             out += ['[ bonds ]', '%s ZZ9 1 0.3 1000' % m['atoms'][0]['name']]
             applied = fault
@@ -1061,7 +1072,7 @@ def run_case(params):
                 b.nontrivial(text, {'itp_text': text[:2500]})
         elif r < 0.88:
             fault = rnd.choice(['itp-duplicate-atom', 'itp-index-beyond-atoms', 'itp-unknown-section', 'itp-endif-without-if',
-                                'itp-undefined-atom-name', 'itp-index-zero', 'itp-index-zero', 'itp-index-negative'])
+                                'itp-undefined-atom-name', 'itp-index-zero', 'itp-index-zero', 'itp-index-negative', 'itp-too-few-atoms', 'itp-too-few-atoms'])
             p, mols, text = check_itp(rnd, b, fault=fault)
             if p == 'skip':
                 b.total -= 1
